@@ -75,11 +75,16 @@ def pattern(pb, db):
 # all broadcast-compatible (parameter, data) pairs; pairs whose broadcast batch has a single element cannot show cross-talk
 # and pairs with pb == db are not a broadcast: both kinds are kept, but thin
 PAIRS = [(p, d) for p in SHAPES for d in SHAPES if compatible(p, d)]
-_PAIR_WEIGHTED = [pd for pd in PAIRS for _ in range(1 if (numel(bshape(*pd)) == 1 or pd[0] == pd[1]) else 4)]
+_BY_PATTERN = {}
+for _pd in PAIRS:
+    # within a pattern, pairs whose broadcast batch has one element only are kept thin
+    _BY_PATTERN.setdefault(pattern(*_pd), []).extend([_pd] * (1 if numel(bshape(*_pd)) == 1 else 4))
+_PATTERNS = ["none", "equal"] + [k for k in sorted(_BY_PATTERN) if k not in ("none", "equal") for _ in range(4)]
 
 
 def batch_pair():
-    return st.sampled_from(_PAIR_WEIGHTED)
+    """(parameter batch shape, data batch shape): every real broadcast pattern equally often, all pairs of a pattern"""
+    return st.sampled_from(_PATTERNS).flatmap(lambda k: st.sampled_from(_BY_PATTERN[k]))
 
 
 def sub_shape(draw, full):
@@ -137,6 +142,10 @@ def judge(ctx, name, got, reps, full, rtol=RTOL, atol=ATOL, own_batch=None, scal
     every shape that broadcasts into `full`."""
     got = dense(got).detach()
     reps = [dense(r).detach() for r in reps]
+    if not all(bool(torch.isfinite(v).all()) for v in reps):
+        # e.g. PolynomialKernelGrad(power=1) at x1.x2 + offset == 0 (0 * inf), log of a noise that underflowed to 0: what the
+        # non-batched object returns there is a value question (C05 / C12), not a batch question
+        raise Discard("non-finite value in the non-batched replica")
     ev = tuple(reps[0].shape)
     full = tuple(full)
     want = torch.stack(reps).reshape(full + ev)
@@ -175,6 +184,8 @@ def tree_case(draw, depth=2, mixed=False):
     n2 = n1 if same else draw(st.integers(1, 4))
     x1 = draw(kern.points(n1, d, db))
     x2 = None if same else draw(kern.points(n2, d, db))
+    if mixed and draw(st.booleans()):
+        r = draw(thin_out(r, 1))  # nodes with thinner batch shapes that broadcast into pb
     return {"pb": pb, "db": db, "d": d, "kernel": r, "x1": x1, "x2": x2, "lazy": draw(st.booleans()),
             "diag": same and draw(st.integers(0, 2)) == 0}
 
@@ -189,7 +200,7 @@ def eval_kernel(k, x1, x2, lazy, diag):
 def run_kernel(case, ctx: Ctx, build=None, desc=None, prep=None):
     build = build or kern.build_kernel
     r = case["kernel"]
-    pb, db = case["pb"], case["db"]
+    pb, db = recipe_batch(r), case["db"]
     full = bshape(pb, db)
     name = (desc or kern.describe)(r)
     ctx.cls = f"{name}|{pattern(pb, db)}|pb{pb}|db{db}{'|diag' if case['diag'] else ''}"
@@ -209,9 +220,6 @@ def run_kernel(case, ctx: Ctx, build=None, desc=None, prep=None):
         with ctx.observing("replica"):
             kb = build(rb)
             reps.append(eval_kernel(kb, sl(x1, nb, full, beta), None if x2 is None else sl(x2, nb, full, beta), case["lazy"], case["diag"]))
-    if not all(bool(torch.isfinite(v).all()) for v in reps):
-        # e.g. PolynomialKernelGrad(power=1) at x1.x2 + offset == 0 (0 * inf): a value question (C05), not a batch question
-        raise Discard("non-finite kernel value in the non-batched replica")
     judge(ctx, "diag" if case["diag"] else "value", got, reps, full)
     nontrivial(ctx, pb, db, reps)
     pat_labels(ctx, pb, db)
@@ -222,7 +230,8 @@ def run_tree(case, ctx: Ctx):
     run_kernel(case, ctx)
     r = case["kernel"]
     ctx.label(*{f"kernel={l['k']}" for l in kern.leaves(r)}, f"composite={kern.is_composite(r)}", f"diag={case['diag']}",
-              f"lazy={case['lazy']}", f"x2={'none' if case['x2'] is None else 'given'}")
+              f"lazy={case['lazy']}", f"x2={'none' if case['x2'] is None else 'given'}",
+              f"node_batches={'mixed' if recipe_batch(r) != case['pb'] or _mixed(r) else 'uniform'}")
 
 
 # ---------------------------------------------------------------------------------------------------
@@ -549,8 +558,8 @@ def slice_lik(r, full, beta):
 
 def lik_batch(r):
     out = list(r["batch"])
-    if r["l"] == "FixedNoise":
-        out = bshape(out, list(T(r["noise"]).shape[:-1]))
+    if r["l"] == "FixedNoise":  # the constructor's batch_shape only shapes the learned additional noise
+        out = bshape(out if r["learn"] else [], list(T(r["noise"]).shape[:-1]))
     return out
 
 
@@ -664,6 +673,17 @@ def thin_out(draw, r, p_keep=3):
     if "parts" in r:
         r["parts"] = [draw(thin_out(q, p_keep)) for q in r["parts"]]
     return r
+
+
+def _mixed(r):
+    bs = {tuple(q.get("batch", [])) for q in _nodes(r) if q.get("p")}
+    return len(bs) > 1
+
+
+def _nodes(r):
+    yield r
+    for q in ([r["base"]] if "base" in r else []) + list(r.get("parts", [])):
+        yield from _nodes(q)
 
 
 def recipe_batch(r):
